@@ -228,15 +228,26 @@ def run_clean(ctx) -> RuleResult:
     modname = "numpoly.construct.clean"
     module = ctx.repo.module(modname)
     func = ctx.repo.function(modname, "remove_redundant_coefficients")
+    cond = exp_name = coef_name = None
     comps = [n for n in ast.walk(func) if isinstance(n, (ast.ListComp, ast.GeneratorExp)) and n.generators and n.generators[0].ifs]
-    if len(comps) != 1:
-        raise AnalysisError("remove_redundant_coefficients: filtering comprehension not recognised")
-    gen = comps[0].generators[0]
-    cond = gen.ifs[0]
-    if not (isinstance(gen.iter, ast.Call) and isinstance(gen.iter.func, ast.Name) and gen.iter.func.id == "zip"
-            and isinstance(gen.target, ast.Tuple) and len(gen.target.elts) == 2):
-        raise AnalysisError("remove_redundant_coefficients: expected 'for exponent, coefficient in zip(...)'")
-    exp_name, coef_name = gen.target.elts[0].id, gen.target.elts[1].id
+    if len(comps) == 1:
+        gen = comps[0].generators[0]
+        if isinstance(gen.iter, ast.Call) and isinstance(gen.iter.func, ast.Name) and gen.iter.func.id == "zip" \
+                and isinstance(gen.target, ast.Tuple) and len(gen.target.elts) == 2:
+            cond = gen.ifs[0]
+            exp_name, coef_name = gen.target.elts[0].id, gen.target.elts[1].id
+    if cond is None:
+        # loop form:  for exponent, coefficient in zip(...):  if <keep>: kept.append(...)
+        for loop in [n for n in ast.walk(func) if isinstance(n, ast.For)]:
+            if isinstance(loop.iter, ast.Call) and isinstance(loop.iter.func, ast.Name) and loop.iter.func.id == "zip" \
+                    and isinstance(loop.target, ast.Tuple) and len(loop.target.elts) == 2:
+                ifs = [st for st in loop.body if isinstance(st, ast.If)]
+                if len(ifs) == 1 and any(isinstance(c.func, ast.Attribute) and c.func.attr == "append" for c in calls_in(ifs[0])
+                                         if isinstance(c.func, ast.Attribute)) and not ifs[0].orelse:
+                    cond = ifs[0].test
+                    exp_name, coef_name = loop.target.elts[0].id, loop.target.elts[1].id
+    if cond is None:
+        raise AnalysisError("remove_redundant_coefficients: keep-predicate (filtering comprehension or loop) not recognised")
     disj = cond.values if isinstance(cond, ast.BoolOp) and isinstance(cond.op, ast.Or) else [cond]
     keeps_nonzero = keeps_constant = False
     problems = []
@@ -436,7 +447,7 @@ def run_prodaxes(ctx) -> RuleResult:
     )
     modname = "numpoly.array_function.prod"
     module = ctx.repo.module(modname)
-    func = ctx.repo.function(modname, "prod")
+    func = ctx.repo.raw_function(modname, "prod")
     n = 0
     seen = set()
     for path in ctx.paths_auto(module, func):
